@@ -42,6 +42,9 @@ def run(ck, ctx):
                       "RespValue variant the first byte written is that variant's RESP marker (`+` simple string, `-` error, `:` integer, "
                       "`$` bulk string - null included, `*` array - null included); a null array written as `$-1` decodes to a null bulk "
                       "string, so the emitted value does not decode back to itself")
+    ck.rule("R15.12", "the RESP decoders and the GET/SET recognisers contain no explicit panic source: no unwrap()/expect() of an Option or "
+                      "Result, no panic!/unreachable!/assert! outside debug assertions (with panic = abort any of them is a way for "
+                      "a client's bytes to stop the server; every failure is a returned protocol error or the Incomplete sentinel)")
     from . import bounds as _bounds
     ck.rule("R15.11", _bounds.TEXT % "the RESP decoders and the connection's hand-written GET/SET recognisers")
     ck.nd("prefix-stability and encode/decode identity for all values (needs execution or proof)")
@@ -59,9 +62,35 @@ def run(ck, ctx):
         prefix_rule(ck, prog, cfg, "R15.5")
         _r158(ck, prog, cfg)
         _r1510(ck, prog, cfg)
+        _r1512(ck, prog, cfg)
         _bounds.rule(ck, prog, cfg, "R15.11", ("src/redis/resp.rs", "src/redis/resp_optimized.rs", "src/production/connection_optimized.rs"),
                      "a frame that is split by the network right there (or a malformed one)", floor=12, tag=_tag(cfg))
     _r156(ck, ctx)
+
+
+def _r1512(ck, prog, cfg):
+    n = hits = 0
+    for f in prog.lib_fns():
+        dec = f.file in ("src/redis/resp.rs", "src/redis/resp_optimized.rs") or \
+            (f.file == "src/production/connection_optimized.rs" and re.search(r"try_fast_|collect_(get_keys|set_pairs)|parse_usize_fast", f.id))
+        if not dec or "::tests::" in f.id or f.d.get("implements") or re.search(r"BufferPool|Encoder|::encode", f.id):
+            continue
+        n += 1
+        k = 0
+        for b, t in f.calls():
+            c = callee(t)
+            if re.search(r"^std::(option::Option|result::Result)::<.*>::(unwrap|expect|unwrap_err|expect_err)$|panicking::|::begin_panic|assert_failed|unreachable_display|panic_fmt|panic_explicit", c):
+                if t.get("mac") in ("debug_assert", "debug_assert_eq", "debug_assert_ne"):
+                    continue
+                k += 1
+                hits += 1
+                fid = re.sub(r"\{closure#\d+\}", "{closure}", f.id).rsplit("::", 2)
+                ck.bad("R15.12", "%s:%s#%d%s" % ("::".join(fid[-2:]), c.rsplit("::", 1)[-1], k, _tag(cfg)),
+                       "decoder code calls %s: a failure here is a panic, i.e. (panic = abort) a server crash a client can trigger with crafted "
+                       "or split input; decoders report protocol errors / Incomplete instead" % c[-60:], f.where(t["ln"]))
+    ck.floor("R15.12:functions-scanned" + _tag(cfg), n, 14)
+    if hits == 0:
+        ck.ok("R15.12", "decoders-have-no-explicit-panic" + _tag(cfg), "%d decoder functions scanned" % n)
 
 
 INTISH = re.compile(r"^(std::result::Result<|std::option::Option<)?(i64|u64|usize|i32|u32|isize)\b")
